@@ -915,15 +915,16 @@ struct FaultSrc<'a> {
     pos: usize,
     calls: usize,
     fail_at: Option<(usize, std::io::ErrorKind)>,
+    fail_again_at: Option<(usize, std::io::ErrorKind)>,
     chunk: usize,
 }
 impl Read for FaultSrc<'_> {
     fn read(&mut self, buf: &mut [u8]) -> std::io::Result<usize> {
         let c = self.calls;
         self.calls += 1;
-        if let Some((k, kind)) = self.fail_at {
-            if k == c {
-                return Err(std::io::Error::new(kind, "injected"));
+        for (k, kind) in self.fail_at.iter().chain(self.fail_again_at.iter()) {
+            if *k == c {
+                return Err(std::io::Error::new(*kind, "injected"));
             }
         }
         let n = buf.len().min(self.data.len() - self.pos).min(self.chunk);
@@ -1129,21 +1130,29 @@ const FAULT_KINDS: [std::io::ErrorKind; 3] = [std::io::ErrorKind::Interrupted, s
 /// One case of the source-answer sweep: two primitives on a source whose `fault.0`-th `read` call
 /// answers with an error of kind `fault.1` and which hands over at most `chunk` bytes per call.
 fn fault_case(data: &[u8], a: Prim, b: Prim, fault: Option<(usize, std::io::ErrorKind)>, chunk: usize, tabs: &[Vec<Entry<u8>>; 3]) -> Result<(), String> {
+    fault_case2(data, a, b, fault, None, chunk, tabs)
+}
+
+/// The same with a second departure: a later `read` call answers with an error as well.
+fn fault_case2(data: &[u8], a: Prim, b: Prim, fault: Option<(usize, std::io::ErrorKind)>, fault2: Option<(usize, std::io::ErrorKind)>, chunk: usize, tabs: &[Vec<Entry<u8>>; 3]) -> Result<(), String> {
     let bits = bits_of(data);
-    let mut rd = H263Reader::from_source(FaultSrc { data, pos: 0, calls: 0, fail_at: fault, chunk });
+    let hard = [fault, fault2].iter().flatten().filter(|f| f.1 != std::io::ErrorKind::Interrupted).count();
+    let mut retries_left = hard;
+    let mut rd = H263Reader::from_source(FaultSrc { data, pos: 0, calls: 0, fail_at: fault, fail_again_at: fault2, chunk });
     let mut m = Model { bits: &bits, avail: bits.len(), pos: 0 };
     catch(|| -> Result<(), String> {
         for (step, p) in [a, b].into_iter().enumerate() {
             let before = m.pos;
             let acc = m.prim(p);
             let mut got = do_prim(&mut rd, p, tabs);
-            if matches!(&got, Out::Other(_)) && fault.map(|f| f.1 != std::io::ErrorKind::Interrupted).unwrap_or(false) {
-                // the injected error surfaced: nothing may have been consumed, and the
+            while matches!(&got, Out::Other(_)) && retries_left > 0 {
+                // an injected error surfaced: nothing may have been consumed, and the
                 // repeated operation must now give the model's answer (VLC / UMV reads leave
                 // the position undefined after an error, so they are re-run from a fresh reader)
                 if matches!(p, Prim::Vlc(_) | Prim::Umv) {
                     return Ok(());
                 }
+                retries_left -= 1;
                 got = do_prim(&mut rd, p, tabs);
             }
             if !acc.contains(&got) {
@@ -1207,6 +1216,21 @@ fn source_fault_sweep(rep: &Report, tier: Tier) {
                         continue;
                     }
                     count += 1;
+                    // a second departure later on (every later call, the two kinds a caller retries after)
+                    if let Some(f1) = fault {
+                        if chunk == usize::MAX || chunk == 1 {
+                            for k2 in f1.0 + 1..=data.len() + 2 {
+                                for kd2 in [std::io::ErrorKind::WouldBlock, std::io::ErrorKind::Interrupted] {
+                                    count += 1;
+                                    if let Err(e) = fault_case2(data, prims[a], prims[b], *fault, Some((k2, kd2)), chunk, &tabs) {
+                                        let class = if e.contains("panic") { panic_sig(e.split("panic ").nth(1).unwrap_or(&e)) } else { "C14/source-answers-two-errors".to_string() };
+                                        let kind_ix = kinds.iter().position(|k| *k == f1.1).unwrap_or(0);
+                                        rep.violation(&class, format!("source {} delivering {} per read, calls {} and {k2} answer {:?} and {kd2:?}: [{:?}, {:?}]: {e}", hex(data), if chunk == usize::MAX { "everything asked for".to_string() } else { format!("at most {chunk} byte(s)") }, f1.0, f1.1, prims[a], prims[b]), json!({"kind": "reader-fault", "source": hex(data), "chunk": if chunk == usize::MAX { 0 } else { chunk }, "fault_call": f1.0, "fault_kind_index": kind_ix, "second_fault_call": k2, "second_fault_kind_index": if kd2 == std::io::ErrorKind::WouldBlock { 1 } else { 0 }, "op_indices": [a, b], "ops": [format!("{:?}", prims[a]), format!("{:?}", prims[b])], "error": e}));
+                                    }
+                                }
+                            }
+                        }
+                    }
                     if let Err(e) = fault_case(data, prims[a], prims[b], *fault, chunk, &tabs) {
                         let class = if e.contains("panic") { panic_sig(e.split("panic ").nth(1).unwrap_or(&e)) } else { format!("C14/source-answer-{}", match fault { None => "chunked".to_string(), Some((_, k)) => format!("{k:?}") }) };
                         let kind_ix = fault.map(|f| kinds.iter().position(|k| *k == f.1).unwrap_or(0));
@@ -1399,7 +1423,8 @@ pub fn replay(case: &serde_json::Value) {
         let (a, b) = (FAULT_PRIMS[*ix.first().unwrap_or(&0)], FAULT_PRIMS[*ix.get(1).unwrap_or(&0)]);
         let fault = case["fault_call"].as_u64().map(|k| (k as usize, FAULT_KINDS[case["fault_kind_index"].as_u64().unwrap_or(1) as usize % 3]));
         let chunk = match case["chunk"].as_u64().unwrap_or(0) { 0 => usize::MAX, c => c as usize };
-        println!("source {} handing over at most {chunk} byte(s) per call, call {fault:?} answers with an error: [{a:?}, {b:?}] then drain -> {:?}", hex(&data), fault_case(&data, a, b, fault, chunk, &tables()));
+        let fault2 = case["second_fault_call"].as_u64().map(|k| (k as usize, FAULT_KINDS[case["second_fault_kind_index"].as_u64().unwrap_or(1) as usize % 3]));
+        println!("source {} handing over at most {chunk} byte(s) per call, calls {fault:?} {fault2:?} answer with an error: [{a:?}, {b:?}] then drain -> {:?}", hex(&data), fault_case2(&data, a, b, fault, fault2, chunk, &tables()));
         return;
     }
     if case["kind"] == "reader-overlong" {
